@@ -1,10 +1,12 @@
 INIT Init
 NEXT Next
 CONSTANTS
-  Kinds = {"layout"}
+  Dev = {}
+  Kinds = {"layout", "api"}
   Strict = FALSE
   Full = FALSE
   MaxCnt = 2
 INVARIANT InvLayout
 INVARIANT InvAccessor
+INVARIANT InvApi
 CHECK_DEADLOCK FALSE
